@@ -25,11 +25,11 @@ type NondetVal struct {
 }
 
 type Run struct {
-	ID     string      `json:"id"`
-	Fn     string      `json:"fn"`
-	Args   []int64     `json:"args"`
-	Nondet []NondetVal `json:"nondet"`
-	Expect string      `json:"expect"`
+	ID      string            `json:"id"`
+	Fn      string            `json:"fn"`
+	Args    []int64           `json:"args"`
+	Nondet  []NondetVal       `json:"nondet"`
+	Expect  string            `json:"expect"`
 	Observe map[string]string `json:"observe,omitempty"`
 }
 
@@ -179,12 +179,17 @@ func checkSide() {
 	}
 }
 
-func Reach(label string)   {}
-func Note(s string)        {}
-func Finding(id string)    {}
-func MapOrder(mode int)    {}
-func Stop()                { panic(stop{}) }
-func Symbolic() bool       { return false }
+func Reach(label string) {}
+func Note(s string)      {}
+func Finding(id string)  {}
+func MapOrder(mode int)  {}
+func Stop()              { panic(stop{}) }
+func Symbolic() bool     { return false }
+
+// RaceRetry: the engine replays an unconfirmed counterexample a second time with VERIF_RACE_RETRY set;
+// native harnesses with real goroutines may then force the less likely of two racing orders (the engine
+// explores both; natively the scheduler almost always picks one). Always false under the engine.
+func RaceRetry() bool { return os.Getenv("VERIF_RACE_RETRY") != "" }
 
 // Non-forking boolean connectives (the engine builds one term instead of branching).
 func And(a, b bool) bool     { return a && b }
